@@ -84,7 +84,7 @@ def interpolate_cff2_charstrings(topDict, interpolateFromDeltas, glyphOrder):
         # and use and discard vsindex op.
         charstring = charstrings[gname]
         new_program = []
-        vsindex = 0
+        vsindex = getattr(charstring.private, "vsindex", 0)
         last_i = 0
         for i, token in enumerate(charstring.program):
             if token == "vsindex":
